@@ -328,3 +328,10 @@ func (e *End) InjectInit(b []byte) {
 	e.rd.buf = append(e.rd.buf, b...)
 	e.rd.put += len(b)
 }
+
+// Reads and Writes report the number of calls begun so far.
+func (e *End) Reads() int  { return e.reads }
+func (e *End) Writes() int { return e.writes }
+
+// EnvClose closes this end on behalf of the environment (not counted in Closes).
+func (e *End) EnvClose() { e.p.mon.Do(e.Name+".envclose", nil, func() { e.envClose() }) }
